@@ -122,6 +122,9 @@ type model struct {
 	wrapped   bool // a probe has installed a wrapper
 	closesPre int  // closes before the first wrap (caller's own, forwarded one-to-one)
 	closesAny bool // a close after the wrap
+	// a read that fails once (a timeout) when the stream stands at this offset, delivering nothing; the stream then carries on
+	transientAt   int
+	transientSeen bool // the caller has been told
 }
 
 func (prop) Run(t *testing.T, tape *kernel.Tape, sc kernel.Scenario) *kernel.Result {
@@ -192,6 +195,18 @@ func (prop) Run(t *testing.T, tape *kernel.Tape, sc kernel.Scenario) *kernel.Res
 			st.Data = content[:off]
 			st.Term = &kernel.InjectedError{What: fmt.Sprintf("read error at %d", off)}
 			st.ErrOnce = tape.Bool(3, "error-reported-once")
+			switch tape.Weighted("terminal-error-value", 3, 1, 1) {
+			case 1:
+				st.Term = io.ErrUnexpectedEOF
+			case 2:
+				st.Term = fmt.Errorf("connection lost: %w", io.EOF)
+			}
+		}
+		if tape.Bool(5, "transient-read-error?") {
+			st.TransientErrAt = tape.Choose(len(st.Data)+1, "transient-at")
+			if st.TransientErrAt == len(st.Data) {
+				st.TermWithData = false // the end marker must not ride along with the last byte past the waiting error
+			}
 		}
 		switch tape.Weighted("declared", 6, 2, 2) {
 		case 0:
@@ -297,13 +312,14 @@ func (prop) Run(t *testing.T, tape *kernel.Tape, sc kernel.Scenario) *kernel.Res
 		res.Viol = nil
 		res.FromEnv(env)
 	}()
-	m := &model{data: st.Data, term: st.Term}
+	m := &model{data: st.Data, term: st.Term, transientAt: st.TransientErrAt}
 	if m.term == nil {
 		m.term = io.EOF
 	}
 	if nilBody {
 		m.data = nil
 		m.term = io.EOF
+		m.transientAt = -1
 	}
 	bodyKind := "body"
 	if nilBody {
@@ -323,7 +339,10 @@ func (prop) Run(t *testing.T, tape *kernel.Tape, sc kernel.Scenario) *kernel.Res
 			want := declared > 0 || (declared < 0 && !m.closed && !m.termSeen && m.delivered < len(m.data))
 			// If the terminal has been seen nothing more can be read; if not yet seen but no data remains → false as well.
 			env.Log("probe", "HasBody → %v", got)
-			if got != want {
+			// the stream's next answer is a failure that has not been passed on yet: whether "a byte can be read" is then
+			// a matter of opinion (the bytes are there for whoever reads on), so the answer is not judged, only its stability
+			transientNext := declared < 0 && !m.closed && !nilBody && m.transientAt >= 0 && !m.transientSeen && m.delivered == m.transientAt
+			if got != want && !transientNext {
 				env.Violate("C17/hasbody-wrong", fmt.Sprintf("%s:declared=%s:want=%v", bodyKind, declClass(declared), want),
 					"step %d: HasBody=%v, model says %v (delivered %d of %d, closed=%v)", i, got, want, m.delivered, len(m.data), m.closed)
 			}
@@ -370,6 +389,10 @@ func (prop) Run(t *testing.T, tape *kernel.Tape, sc kernel.Scenario) *kernel.Res
 				}
 				continue
 			}
+			if n > 0 && m.transientAt >= 0 && !m.transientSeen && m.delivered <= m.transientAt && m.delivered+n > m.transientAt {
+				env.Violate("C17/terminal-wrong", bodyKind+":read-error-skipped", "step %d: read %d bytes from offset %d: the stream failed once at offset %d and the caller was never told", i, n, m.delivered, m.transientAt)
+				goto done
+			}
 			if n > 0 {
 				end := m.delivered + n
 				if end > len(m.data) || !bytes.Equal(buf[:n], m.data[m.delivered:end]) {
@@ -377,6 +400,14 @@ func (prop) Run(t *testing.T, tape *kernel.Tape, sc kernel.Scenario) *kernel.Res
 					goto done
 				}
 				m.delivered = end
+			}
+			if err != nil && kernel.IsTransient(err) {
+				if m.transientSeen || m.delivered != m.transientAt {
+					env.Violate("C17/terminal-wrong", bodyKind+":transient-misplaced", "step %d: the stream's one-off read failure surfaced at offset %d (seen before: %v), it happened at %d", i, m.delivered, m.transientSeen, m.transientAt)
+					goto done
+				}
+				m.transientSeen = true
+				continue
 			}
 			if err != nil {
 				if m.delivered != len(m.data) {
@@ -414,6 +445,17 @@ func (prop) Run(t *testing.T, tape *kernel.Tape, sc kernel.Scenario) *kernel.Res
 				if n > 0 || (err == nil && !nilBody) {
 					env.Violate("C17/read-after-close", bodyKind+":copy", "step %d: io.Copy from the closed body returned %d,%v", i, n, err)
 				}
+				continue
+			}
+			if m.transientAt >= m.delivered && !m.transientSeen && m.transientAt >= 0 {
+				// the copy runs into the one-off failure and stops there
+				upTo := m.data[m.delivered:m.transientAt]
+				if !bytes.Equal(sink.Bytes(), upTo) || !kernel.IsTransient(err) {
+					env.Violate("C17/terminal-wrong", bodyKind+":copy-past-a-read-error", "step %d: io.Copy from offset %d delivered %d bytes and ended with %v; the stream fails once at offset %d", i, m.delivered, sink.Len(), err, m.transientAt)
+					goto done
+				}
+				m.delivered = m.transientAt
+				m.transientSeen = true
 				continue
 			}
 			rest := m.data[m.delivered:]
